@@ -207,15 +207,15 @@ func TestFlv(t *testing.T) {
 			rng.Read(body)
 			f := srcFrame{kind: k}
 			switch k {
-			case "key":
-				body[0] = 0x65
+			case "key": // every kind of random-access picture: IDR (any nal_ref_idc) / the six IRAP types of HEVC
+				body[0] = []byte{0x65, 0x25, 0x45}[(ci+i)%3]
 				if h265 {
-					body[0] = 19 << 1 // IDR_W_RADL
+					body[0] = []byte{19, 20, 21, 16, 17, 18}[(ci+i)%6] << 1 // IDR_W_RADL, IDR_N_LP, CRA, BLA_W_LP, BLA_W_RADL, BLA_N_LP
 				}
 			case "non":
-				body[0] = 0x41
+				body[0] = []byte{0x41, 0x21, 0x01, 0x61}[(ci+i)%4]
 				if h265 {
-					body[0] = 1 << 1 // TRAIL_R
+					body[0] = []byte{1, 0, 3, 5, 7, 9}[(ci+i)%6] << 1 // TRAIL_R, TRAIL_N, TSA_R, STSA_R, RADL_R, RASL_R
 				}
 			default:
 				body[0] = 0x21
